@@ -1,4 +1,5 @@
-// Package vatomic mirrors sync/atomic with scheduling points.
+// Package vatomic mirrors sync/atomic with a scheduling point before every operation, and tracks per-address
+// versions for watched addresses so that an ABA-style successful CAS can be recognised (DESIGN.md section 4, D1).
 package vatomic
 
 import (
@@ -9,40 +10,207 @@ import (
 )
 
 type (
-	Value = atomic.Value
-	Bool = atomic.Bool
-	Int32 = atomic.Int32
-	Int64 = atomic.Int64
+	Value  = atomic.Value
+	Bool   = atomic.Bool
+	Int32  = atomic.Int32
+	Int64  = atomic.Int64
 	Uint32 = atomic.Uint32
 	Uint64 = atomic.Uint64
 )
 
-func LoadInt32(addr *int32) int32 { vsched.Point("atomic.Load"); return atomic.LoadInt32(addr) }
-func StoreInt32(addr *int32, v int32) { vsched.Point("atomic.Store"); atomic.StoreInt32(addr, v) }
-func AddInt32(addr *int32, d int32) int32 { vsched.Point("atomic.Add"); return atomic.AddInt32(addr, d) }
-func SwapInt32(addr *int32, v int32) int32 { vsched.Point("atomic.Swap"); return atomic.SwapInt32(addr, v) }
-func CompareAndSwapInt32(addr *int32, o, n int32) bool { vsched.Point("atomic.CAS"); return atomic.CompareAndSwapInt32(addr, o, n) }
-func LoadInt64(addr *int64) int64 { vsched.Point("atomic.Load"); return atomic.LoadInt64(addr) }
-func StoreInt64(addr *int64, v int64) { vsched.Point("atomic.Store"); atomic.StoreInt64(addr, v) }
-func AddInt64(addr *int64, d int64) int64 { vsched.Point("atomic.Add"); return atomic.AddInt64(addr, d) }
-func SwapInt64(addr *int64, v int64) int64 { vsched.Point("atomic.Swap"); return atomic.SwapInt64(addr, v) }
-func CompareAndSwapInt64(addr *int64, o, n int64) bool { vsched.Point("atomic.CAS"); return atomic.CompareAndSwapInt64(addr, o, n) }
-func LoadUint32(addr *uint32) uint32 { vsched.Point("atomic.Load"); return atomic.LoadUint32(addr) }
-func StoreUint32(addr *uint32, v uint32) { vsched.Point("atomic.Store"); atomic.StoreUint32(addr, v) }
-func AddUint32(addr *uint32, d uint32) uint32 { vsched.Point("atomic.Add"); return atomic.AddUint32(addr, d) }
-func SwapUint32(addr *uint32, v uint32) uint32 { vsched.Point("atomic.Swap"); return atomic.SwapUint32(addr, v) }
-func CompareAndSwapUint32(addr *uint32, o, n uint32) bool { vsched.Point("atomic.CAS"); return atomic.CompareAndSwapUint32(addr, o, n) }
-func LoadUint64(addr *uint64) uint64 { vsched.Point("atomic.Load"); return atomic.LoadUint64(addr) }
-func StoreUint64(addr *uint64, v uint64) { vsched.Point("atomic.Store"); atomic.StoreUint64(addr, v) }
-func AddUint64(addr *uint64, d uint64) uint64 { vsched.Point("atomic.Add"); return atomic.AddUint64(addr, d) }
-func SwapUint64(addr *uint64, v uint64) uint64 { vsched.Point("atomic.Swap"); return atomic.SwapUint64(addr, v) }
-func CompareAndSwapUint64(addr *uint64, o, n uint64) bool { vsched.Point("atomic.CAS"); return atomic.CompareAndSwapUint64(addr, o, n) }
-func LoadUintptr(addr *uintptr) uintptr { vsched.Point("atomic.Load"); return atomic.LoadUintptr(addr) }
-func StoreUintptr(addr *uintptr, v uintptr) { vsched.Point("atomic.Store"); atomic.StoreUintptr(addr, v) }
-func AddUintptr(addr *uintptr, d uintptr) uintptr { vsched.Point("atomic.Add"); return atomic.AddUintptr(addr, d) }
-func SwapUintptr(addr *uintptr, v uintptr) uintptr { vsched.Point("atomic.Swap"); return atomic.SwapUintptr(addr, v) }
-func CompareAndSwapUintptr(addr *uintptr, o, n uintptr) bool { vsched.Point("atomic.CAS"); return atomic.CompareAndSwapUintptr(addr, o, n) }
-func LoadPointer(addr *unsafe.Pointer) unsafe.Pointer { vsched.Point("atomic.Load"); return atomic.LoadPointer(addr) }
-func StorePointer(addr *unsafe.Pointer, v unsafe.Pointer) { vsched.Point("atomic.Store"); atomic.StorePointer(addr, v) }
-func SwapPointer(addr *unsafe.Pointer, v unsafe.Pointer) unsafe.Pointer { vsched.Point("atomic.Swap"); return atomic.SwapPointer(addr, v) }
-func CompareAndSwapPointer(addr *unsafe.Pointer, o, n unsafe.Pointer) bool { vsched.Point("atomic.CAS"); return atomic.CompareAndSwapPointer(addr, o, n) }
+type watchInfo struct {
+	version uint64
+	seen    map[int]uint64
+}
+
+var (
+	watch = map[unsafe.Pointer]*watchInfo{}
+	// ABAEvents counts successful CASes on a watched address whose version changed since the thread last loaded it.
+	ABAEvents int
+	ABALast   string
+)
+
+// Watch registers an address for ABA tracking (only consulted during controlled runs, single running thread).
+func Watch(p unsafe.Pointer) { watch[p] = &watchInfo{seen: map[int]uint64{}} }
+
+// ResetWatch forgets all watched addresses and events.
+func ResetWatch() {
+	watch = map[unsafe.Pointer]*watchInfo{}
+	ABAEvents = 0
+	ABALast = ""
+}
+
+func onLoad(p unsafe.Pointer) {
+	if len(watch) == 0 {
+		return
+	}
+	if w := watch[p]; w != nil {
+		w.seen[vsched.CurrentID()] = w.version
+	}
+}
+
+func onWrite(p unsafe.Pointer) {
+	if len(watch) == 0 {
+		return
+	}
+	if w := watch[p]; w != nil {
+		w.version++
+	}
+}
+
+func onCAS(p unsafe.Pointer, ok bool) {
+	if len(watch) == 0 || !ok {
+		return
+	}
+	if w := watch[p]; w != nil {
+		tid := vsched.CurrentID()
+		if s, has := w.seen[tid]; has && s != w.version {
+			ABAEvents++
+			if sc := vsched.Current(); sc != nil {
+				ABALast = sc.ThreadName(tid) + "@" + sc.LastPoint(tid)
+			}
+		}
+		w.version++
+	}
+}
+
+func LoadInt32(addr *int32) int32 {
+	vsched.Point("atomic.Load")
+	onLoad(unsafe.Pointer(addr))
+	return atomic.LoadInt32(addr)
+}
+func StoreInt32(addr *int32, v int32) {
+	vsched.Point("atomic.Store")
+	onWrite(unsafe.Pointer(addr))
+	atomic.StoreInt32(addr, v)
+}
+func AddInt32(addr *int32, d int32) int32 {
+	vsched.Point("atomic.Add")
+	onWrite(unsafe.Pointer(addr))
+	return atomic.AddInt32(addr, d)
+}
+func SwapInt32(addr *int32, v int32) int32 {
+	vsched.Point("atomic.Swap")
+	onWrite(unsafe.Pointer(addr))
+	return atomic.SwapInt32(addr, v)
+}
+func CompareAndSwapInt32(addr *int32, o, n int32) bool {
+	vsched.Point("atomic.CAS")
+	ok := atomic.CompareAndSwapInt32(addr, o, n)
+	onCAS(unsafe.Pointer(addr), ok)
+	return ok
+}
+func LoadInt64(addr *int64) int64 {
+	vsched.Point("atomic.Load")
+	onLoad(unsafe.Pointer(addr))
+	return atomic.LoadInt64(addr)
+}
+func StoreInt64(addr *int64, v int64) {
+	vsched.Point("atomic.Store")
+	onWrite(unsafe.Pointer(addr))
+	atomic.StoreInt64(addr, v)
+}
+func AddInt64(addr *int64, d int64) int64 {
+	vsched.Point("atomic.Add")
+	onWrite(unsafe.Pointer(addr))
+	return atomic.AddInt64(addr, d)
+}
+func SwapInt64(addr *int64, v int64) int64 {
+	vsched.Point("atomic.Swap")
+	onWrite(unsafe.Pointer(addr))
+	return atomic.SwapInt64(addr, v)
+}
+func CompareAndSwapInt64(addr *int64, o, n int64) bool {
+	vsched.Point("atomic.CAS")
+	ok := atomic.CompareAndSwapInt64(addr, o, n)
+	onCAS(unsafe.Pointer(addr), ok)
+	return ok
+}
+func LoadUint32(addr *uint32) uint32 {
+	vsched.Point("atomic.Load")
+	onLoad(unsafe.Pointer(addr))
+	return atomic.LoadUint32(addr)
+}
+func StoreUint32(addr *uint32, v uint32) {
+	vsched.Point("atomic.Store")
+	onWrite(unsafe.Pointer(addr))
+	atomic.StoreUint32(addr, v)
+}
+func AddUint32(addr *uint32, d uint32) uint32 {
+	vsched.Point("atomic.Add")
+	onWrite(unsafe.Pointer(addr))
+	return atomic.AddUint32(addr, d)
+}
+func SwapUint32(addr *uint32, v uint32) uint32 {
+	vsched.Point("atomic.Swap")
+	onWrite(unsafe.Pointer(addr))
+	return atomic.SwapUint32(addr, v)
+}
+func CompareAndSwapUint32(addr *uint32, o, n uint32) bool {
+	vsched.Point("atomic.CAS")
+	ok := atomic.CompareAndSwapUint32(addr, o, n)
+	onCAS(unsafe.Pointer(addr), ok)
+	return ok
+}
+func LoadUint64(addr *uint64) uint64 {
+	vsched.Point("atomic.Load")
+	onLoad(unsafe.Pointer(addr))
+	return atomic.LoadUint64(addr)
+}
+func StoreUint64(addr *uint64, v uint64) {
+	vsched.Point("atomic.Store")
+	onWrite(unsafe.Pointer(addr))
+	atomic.StoreUint64(addr, v)
+}
+func AddUint64(addr *uint64, d uint64) uint64 {
+	vsched.Point("atomic.Add")
+	onWrite(unsafe.Pointer(addr))
+	return atomic.AddUint64(addr, d)
+}
+func SwapUint64(addr *uint64, v uint64) uint64 {
+	vsched.Point("atomic.Swap")
+	onWrite(unsafe.Pointer(addr))
+	return atomic.SwapUint64(addr, v)
+}
+func CompareAndSwapUint64(addr *uint64, o, n uint64) bool {
+	vsched.Point("atomic.CAS")
+	ok := atomic.CompareAndSwapUint64(addr, o, n)
+	onCAS(unsafe.Pointer(addr), ok)
+	return ok
+}
+func LoadUintptr(addr *uintptr) uintptr {
+	vsched.Point("atomic.Load")
+	return atomic.LoadUintptr(addr)
+}
+func StoreUintptr(addr *uintptr, v uintptr) {
+	vsched.Point("atomic.Store")
+	atomic.StoreUintptr(addr, v)
+}
+func AddUintptr(addr *uintptr, d uintptr) uintptr {
+	vsched.Point("atomic.Add")
+	return atomic.AddUintptr(addr, d)
+}
+func SwapUintptr(addr *uintptr, v uintptr) uintptr {
+	vsched.Point("atomic.Swap")
+	return atomic.SwapUintptr(addr, v)
+}
+func CompareAndSwapUintptr(addr *uintptr, o, n uintptr) bool {
+	vsched.Point("atomic.CAS")
+	return atomic.CompareAndSwapUintptr(addr, o, n)
+}
+func LoadPointer(addr *unsafe.Pointer) unsafe.Pointer {
+	vsched.Point("atomic.Load")
+	return atomic.LoadPointer(addr)
+}
+func StorePointer(addr *unsafe.Pointer, v unsafe.Pointer) {
+	vsched.Point("atomic.Store")
+	atomic.StorePointer(addr, v)
+}
+func SwapPointer(addr *unsafe.Pointer, v unsafe.Pointer) unsafe.Pointer {
+	vsched.Point("atomic.Swap")
+	return atomic.SwapPointer(addr, v)
+}
+func CompareAndSwapPointer(addr *unsafe.Pointer, o, n unsafe.Pointer) bool {
+	vsched.Point("atomic.CAS")
+	return atomic.CompareAndSwapPointer(addr, o, n)
+}
